@@ -15,3 +15,10 @@ package legacy
 //@   ensures flag-decides:  !old(in("kubernetes.io/ingress.class", ing.Annotations)) && old(ing.Spec.IngressClassName) == nil ==> result == old(c.cfg.WatchIngressWithoutClass)
 //@   ensures ann-decides:   old(in("kubernetes.io/ingress.class", ing.Annotations)) && old(ing.Spec.IngressClassName) == nil ==> result == old(ing.Annotations["kubernetes.io/ingress.class"] == c.cfg.IngressClass)
 //@ end
+
+// an IngressClass is ours iff its controller name is exactly the configured one
+//@ func (*k8scache).IsValidIngressClass
+//@   props C08
+//@   modifies nothing
+//@   ensures exact: result == (ingressClass.Spec.Controller == c.cfg.ControllerName)
+//@ end
